@@ -5,7 +5,7 @@ CONSTANTS
   CallFs = {"rate", "abs", "scalar", "vector", "clamp_min", "round", "day_of_week", "histogram_quantile", "label_join", "count_over_time"}
   AggOps = {"sum", "avg", "topk", "bottomk", "count_values", "quantile", "limitk", "limit_ratio", "group"}
   AggStyles = {"plain", "by_pre", "by_post", "without_pre", "without_post"}
-  GrpLists = {"none", "a", "ab", "a_tc", "kw", "u", "b"}
+  GrpLists = {"none", "empty", "a", "ab", "a_tc", "kw", "u", "b"}
   BinOps = {"+", "-", "*", "/", "%", "^", "atan2", "==", "!=", "<", "<=", ">", ">=", "</", ">/", "and", "or", "unless"}
   BinMods = {"none", "none", "none", "bool", "on_a", "on_e", "ign_ab", "ign_e", "bool_on_u", "on_gl", "on_gl_same", "ign_gr", "ign_e_gl", "fill0", "fill_l", "fill_lr", "fill_rl", "gl_fill"}
   Offsets <- OffAll
